@@ -86,7 +86,8 @@ def peer_open(s):
 P4 = [('0.0.0.0', 0), ('10.0.0.0', 8), ('10.1.2.0', 23), ('10.1.2.3', 32), ('192.168.1.128', 25)]
 P6 = [('::', 0), ('2001:db8::', 32), ('2001:db8:1::', 49), ('2001:db8::1', 128)]
 PIDS = [None, 0, 1, 2**32 - 1]
-LABELS = [(0,), (3,), (2**20 - 1,), (16, 17)]
+# a stack may hold the same value at two depths: the bottom of the stack is a position, not a value
+LABELS = [(0,), (3,), (2**20 - 1,), (16, 17), (16, 16), (100, 200, 100)]
 RDS = [('65000:1', wire.rd_type0(65000, 1)), ('1.2.3.4:5', wire.rd_type1('1.2.3.4', 5)), ('4200000000:9', wire.rd_type2(4200000000, 9))]
 
 ATTR_ALPHABET = {
@@ -657,7 +658,7 @@ def _from_json(d):
 def run(ctx: core.Ctx) -> None:
     sess = sessions(ctx.tier)
     ctx.rule = (f'{len(sess)} negotiated sessions (iBGP/eBGP x 2-/4-byte local and peer AS x ASN4 on either side x ADD-PATH send x extended next hop x 4096/65535 x AIGP) '
-                f'x {len(nlri_shapes(ctx.tier))} NLRI shapes (unicast/labeled/VPN, IPv4/IPv6, boundary masks, 4 path ids, 4 label stacks, 3 RD types) x next hops (address, self, IPv6 for IPv4 when negotiated) '
+                f'x {len(nlri_shapes(ctx.tier))} NLRI shapes (unicast/labeled/VPN, IPv4/IPv6, boundary masks, 4 path ids, 6 label stacks, 3 RD types) x next hops (address, self, IPv6 for IPv4 when negotiated) '
                 f'x attribute sets: default + every <=1 attribute deviation for all shapes, <= {2 if ctx.tier == "quick" else 3} simultaneous deviations for 5 core shapes, over a {sum(len(v) for v in ATTR_ALPHABET.values())}-value alphabet of 13 keywords; '
                 'the same through the configuration-file path (core shapes, every fourth session) and through the `announce <afi> <safi>` grammar of the API (every shape, every other session, single deviations; pairs for core shapes); non-trivial = at least one attribute given')
     ctx.assumptions += ['reference decoder vt/ref/wire.py', 'text rendered by vt/checks/c01.render_route from the abstract route', 'tolerances of DESIGN.md 4.x (attribute order, LOCAL_PREF given on eBGP, as-path sent as given, AIGP only when enabled)']
